@@ -35,6 +35,11 @@ def parse_hooks(s):
     return out
 
 
+def dec_name(tok):
+    """op lines are blank-separated: the empty string (a legal group name) travels as `''`"""
+    return "" if tok == "''" else tok
+
+
 EMPTY = object()          # the worker was called without any argument: an empty element of starmap / doublestarmap
 
 
@@ -175,6 +180,8 @@ class ImplWorld:
             return "err:" + type(e).__name__
         except AttributeError:
             return "noop"       # stop / apply on the wrong pool class
+        except Exception as e:
+            return "err:!" + type(e).__name__
         return "noop"
 
     def mkworker(self, ctx, mode, swallow, hooks_start, holder, coro=True, hint=None):
@@ -258,6 +265,8 @@ class ImplWorld:
                 reg = "E"
             except X.InvalidTaskID:
                 reg = "N"
+            except Exception:
+                reg = "?"
             ctx.ev.append(f"{pre}c{tag}{tid}:{p.num_running}/{p.num_cancelled}/{p.num_ended}/{reg}")
             W.run_hooks(ctx, hooks, holder)
 
@@ -336,6 +345,8 @@ class ImplWorld:
                 pool = TaskPool(ps, name) if len(self.pools) % 2 else TaskPool(pool_size=ps, name=name)
         except (X.PoolException, ValueError) as e:
             return "err:" + type(e).__name__
+        except Exception as e:
+            return "err:!" + type(e).__name__
         ctx.pool = pool
         self.pools.append(ctx)
         return "name:" + str(pool)
@@ -370,6 +381,7 @@ class ImplWorld:
         try:
             if k == "apply":
                 _, num, g, wm, sw, ecb, ccb, bad, coro, hooks = toks
+                g = dec_name(g)
                 hk = parse_hooks(hooks)
                 holder = {"g": None}
                 f = self.mkworker(ctx, wm, sw == "1", hk["s"], holder, coro == "1")
@@ -389,6 +401,7 @@ class ImplWorld:
                     ctx.names.append(name)
             elif k == "map":
                 _, stars, items, nc, g, wm, sw, ecb, ccb, coro, hooks = toks
+                g = dec_name(g)
                 stars = int(stars)
                 m = ctx.nreq
                 hk = parse_hooks(hooks)
@@ -409,8 +422,11 @@ class ImplWorld:
                         if c == "2":
                             raise Boom("the argument iterator raises instead of yielding")
                         if c == "1":
-                            # an element the call rejects; of varied shape (hashable or not) where the variant allows
-                            if stars == 1 and i % 2 == 1:
+                            # an element the call rejects; of varied shape (hashable or not, tuple or list) where the
+                            # variant allows
+                            if stars == 1 and i % 3 == 2:
+                                yield (i, 2, 3)
+                            elif stars == 1 and i % 2 == 1:
                                 yield [i, 2, 3]
                             elif stars == 2 and i % 2 == 1:
                                 yield {"zz": i}
@@ -450,9 +466,9 @@ class ImplWorld:
             elif k == "cancel_group":
                 kw = self.cancel_kw(ctx)
                 if kw:
-                    self.cancel_order_call(ctx, lambda: p.cancel_group(group_name=toks[1], **kw))
+                    self.cancel_order_call(ctx, lambda: p.cancel_group(group_name=dec_name(toks[1]), **kw))
                 else:
-                    self.cancel_order_call(ctx, lambda: p.cancel_group(toks[1]))
+                    self.cancel_order_call(ctx, lambda: p.cancel_group(dec_name(toks[1])))
             elif k == "cancel_all":
                 kw = self.cancel_kw(ctx)
                 self.cancel_order_call(ctx, lambda: p.cancel_all(**kw))
@@ -463,7 +479,7 @@ class ImplWorld:
             elif k == "set_size":
                 p.pool_size = int(toks[1])
             elif k == "get_ids":
-                res = "set:" + "/".join(str(i) for i in sorted(p.get_group_ids(*toks[1:])))
+                res = "set:" + "/".join(str(i) for i in sorted(p.get_group_ids(*[dec_name(t) for t in toks[1:]])))
             elif k == "flush":
                 ctx.ncalls = getattr(ctx, "ncalls", 0) + 1
                 ctx.apis.append(self.loop.create_task(p.flush(toks[1] == "1") if ctx.ncalls % 2 else
@@ -489,6 +505,8 @@ class ImplWorld:
             res = "err:" + type(e).__name__
         except AttributeError:
             res = "noop"        # start/stop on a TaskPool, apply/map on a SimpleTaskPool
+        except Exception as e:  # nothing else is documented: reported as a result no model ever gives, never a harness crash
+            res = "err:!" + type(e).__name__
         return res
 
     # ------------------------------------------------------------------ observation
@@ -507,8 +525,8 @@ class ImplWorld:
         gs = []
         for n in ctx.names:
             try:
-                gs.append(n + ":" + "/".join(str(i) for i in sorted(p.get_group_ids(n))))
-            except X.InvalidGroupName:
+                gs.append(n + ":" + "/".join(str(int(i)) for i in sorted(p.get_group_ids(n))))
+            except Exception:       # InvalidGroupName: unknown; anything else is observed as unknown too (never a crash)
                 gs.append(n + ":-")
         apis = []
         for i, t in enumerate(ctx.apis):
@@ -521,10 +539,17 @@ class ImplWorld:
             else:
                 o = "ok"
             apis.append(f"{i}:{o}")
-        size = p.pool_size
-        size = "inf" if size == math.inf else str(int(size))
-        s = (f"nm={p} n={p.num_running} c={p.num_cancelled} e={p.num_ended} f={int(p.is_full)} "
-             f"l={int(p.is_locked)} s={size} z={int(self.is_closed(p))} g={';'.join(gs) or '-'} "
+        # an accessor that raises or returns something unrepresentable is observed as -1: a value the model never shows
+        def rd(f):
+            try:
+                v = f()
+                return "inf" if v == math.inf else str(int(v))
+            except Exception:
+                return "-1"
+        size = rd(lambda: p.pool_size)
+        s = (f"nm={p} n={rd(lambda: p.num_running)} c={rd(lambda: p.num_cancelled)} e={rd(lambda: p.num_ended)} "
+             f"f={rd(lambda: p.is_full)} "
+             f"l={rd(lambda: p.is_locked)} s={size} z={rd(lambda: self.is_closed(p))} g={';'.join(gs) or '-'} "
              f"ev={','.join(ctx.ev) or '-'} api={','.join(apis) or '-'} amb=0")
         extra = {"live": len(ctx.live), "maxlive": max(ctx.maxlive, len(ctx.live))}
         ctx.ev.clear()
